@@ -1154,6 +1154,15 @@ func (db *DB) Repair(of Object) (err error) {
 		return
 	}
 
+	// we de-index missing objects first, otherwise an object which is not
+	// on disk anymore may still hold a unique value a new file needs
+	for uuid := range s.ObjectIndex.uuids {
+		if !uuids[uuid] {
+			// if object is not on disk and is in index
+			s.unindexByUUID(uuid)
+		}
+	}
+
 	// we re-index missing uuids
 	for uuid := range uuids {
 		// we don't re-index already indexed objects
@@ -1167,14 +1176,6 @@ func (db *DB) Repair(of Object) (err error) {
 
 		if err = s.index(o); err != nil {
 			return
-		}
-	}
-
-	// we de-index missing objects
-	for uuid := range s.ObjectIndex.uuids {
-		if !uuids[uuid] {
-			// if object is not on disk and is in index
-			s.unindexByUUID(uuid)
 		}
 	}
 
